@@ -309,7 +309,7 @@ func C19(c *Case) *Result {
 				env["KSIM_SHORT_IN"] = fmt.Sprint(1 + t.Intn(5000))
 			}
 		}
-		mode := t.Pick(3, 2, 1, 1) // dir in place, dir to out dir, single file, stdin/stdout
+		mode := t.Pick(3, 2, 1, 2) // dir in place, dir to out dir, single file, stdin/stdout
 		if special != 0 && t.Intn(2) == 0 {
 			mode = 1
 		}
@@ -407,6 +407,63 @@ func C19(c *Case) *Result {
 			}
 		case 3:
 			data := files[0].Data
+			if t.Intn(3) != 0 {
+				// stdin to a NAMED file and back, the outputs possibly existing already (longer than
+				// what is written, so that anything left of the old content shows): without -f the
+				// run must refuse and leave the file alone, with -f the file holds the new bytes only
+				knz := filepath.Join(root, "s.knz")
+				backFile := filepath.Join(root, "s.out")
+				junk := bytes.Repeat([]byte("old content "), 1+(len(data)+4096)/12)
+				pre := t.Pick(1, 2, 1) // 0: no existing output, 1: existing + force, 2: existing, no force
+				step := func(what string, args []string, in []byte, outPath string, check func([]byte) bool) *Result {
+					a := append([]string{}, args...)
+					if pre != 0 {
+						os.WriteFile(outPath, junk, 0o644)
+					}
+					if pre == 1 {
+						a = append(a, "-f")
+					}
+					r := runCLI(cli, root, a, env, in)
+					runs = append(runs, r)
+					got, _ := os.ReadFile(outPath)
+					if pre == 2 {
+						if r.RC == 0 {
+							return res.fail("cli-overwrite-status", "%s from stdin onto an existing file without force exits with status 0", what)
+						}
+						if !bytes.Equal(got, junk) {
+							return res.fail("cli-overwrote-existing", "%s from stdin without force changed the existing output file", what)
+						}
+						res.Probes["stdin.named.refused"]++
+						return nil
+					}
+					if r.RC != 0 {
+						return res.fail("cli-"+what+"-failed", "%s from stdin to a named file exits with status %d: %s", what, r.RC, firstLineOf(r.Out))
+					}
+					if !check(got) {
+						return res.fail("cli-output-wrong", "%s from stdin to a named file (existing before: %v): the file holds %d bytes that are not exactly the expected output", what, pre == 1, len(got))
+					}
+					return nil
+				}
+				if r := step("compress", append([]string{"-c", "-i", "stdin", "-o", knz}, copts...), data, knz, func(got []byte) bool {
+					if !decodesTo(got, data) {
+						return false
+					}
+					// nothing may follow the stream: the fault-free stream of the same options to stdout has the same length
+					ref := runCLI(cli, root, append([]string{"-c", "-i", "stdin", "-o", "stdout"}, copts...), env, data)
+					return ref.RC == 0 && len(ref.Stdout) == len(got)
+				}); r != nil {
+					return r
+				}
+				if pre != 2 {
+					stream, _ := os.ReadFile(knz)
+					if r := step("decompress", []string{"-d", "-i", "stdin", "-o", backFile, "-j", fmt.Sprint(1 + t.Intn(4))}, stream, backFile, func(got []byte) bool { return bytes.Equal(got, data) }); r != nil {
+						return r
+					}
+				}
+				res.Probes["stdin.named.file"]++
+				res.NonTriv = true
+				return res
+			}
 			args := append([]string{"-c", "-i", "stdin", "-o", "stdout"}, copts...)
 			cmd := runCLI(cli, root, args, env, data)
 			runs = append(runs, cmd)
